@@ -490,6 +490,10 @@ def selftest(path, mir_paths, steps, seed, scheduler=None):
             rv, rw = rr.get('vm', {}), rr.get('wasm', {})
             if rv.get('panic') or rw.get('panic') or rv.get('crash') or rw.get('crash') or rv.get('timeout') or rw.get('timeout'):
                 bad = True
+        if not bad and 'wasm trap' in str(res[0][1]):
+            # a trap inside dsp is not fatal on the real WasmDspRuntime: run_dsp logs `WASM DSP execution error` and goes on with
+            # stale outputs, so there is nothing to compare from that step on; the trap itself is a C03 obligation
+            return dict(program=an.name, status='match', mismatches=[], inputs=rows, note='wasm trap inside dsp (swallowed by run_dsp): %s' % (res[0][1],))
         if not bad:
             mism.append('encoder reports panic %r but the real runtimes (release and dev) ran through' % (res[0][1],))
     else:
